@@ -168,18 +168,115 @@ func (v Val) Go() interface{} {
 	panic("sim.Val: unknown tag " + v.T)
 }
 
-// JSON returns the JSON-decoded form (float64 numbers, map[string]interface{}, []interface{})
-// of what encoding/json would produce for Go().
+// JSON returns the JSON form (float64 numbers, map[string]interface{}, []interface{}) that the
+// value stands for: every number converted exactly to float64 (a float32 is widened, not
+// re-parsed from its shortest decimal form), pointers dereferenced, structs by their json tags.
 func (v Val) JSON() interface{} {
-	b, err := json.Marshal(v.Go())
-	if err != nil {
-		panic(fmt.Sprintf("sim.Val.JSON: %v", err))
+	return toJSON(v.Go())
+}
+
+func toJSON(x interface{}) interface{} {
+	switch t := x.(type) {
+	case nil:
+		return nil
+	case bool:
+		return t
+	case *bool:
+		return *t
+	case string:
+		return t
+	case *string:
+		return *t
+	case float64:
+		return t
+	case *float64:
+		return *t
+	case float32:
+		return float64(t)
+	case *float32:
+		return float64(*t)
+	case int:
+		return float64(t)
+	case int8:
+		return float64(t)
+	case int16:
+		return float64(t)
+	case int32:
+		return float64(t)
+	case int64:
+		return float64(t)
+	case *int:
+		if t == nil {
+			return nil
+		}
+		return float64(*t)
+	case *int8:
+		return float64(*t)
+	case *int16:
+		return float64(*t)
+	case *int32:
+		return float64(*t)
+	case *int64:
+		return float64(*t)
+	case uint:
+		return float64(t)
+	case uint8:
+		return float64(t)
+	case uint16:
+		return float64(t)
+	case uint32:
+		return float64(t)
+	case uint64:
+		return float64(t)
+	case *uint:
+		return float64(*t)
+	case *uint8:
+		return float64(*t)
+	case *uint16:
+		return float64(*t)
+	case *uint32:
+		return float64(*t)
+	case *uint64:
+		return float64(*t)
+	case map[string]interface{}:
+		m := make(map[string]interface{}, len(t))
+		for k, e := range t {
+			m[k] = toJSON(e)
+		}
+		return m
+	case []interface{}:
+		if t == nil {
+			return nil
+		}
+		l := make([]interface{}, 0, len(t))
+		for _, e := range t {
+			l = append(l, toJSON(e))
+		}
+		return l
+	case []string:
+		l := make([]interface{}, 0, len(t))
+		for _, e := range t {
+			l = append(l, e)
+		}
+		return l
+	case map[string]int:
+		m := make(map[string]interface{}, len(t))
+		for k, e := range t {
+			m[k] = float64(e)
+		}
+		return m
+	case TaggedStruct:
+		m := map[string]interface{}{"name": t.Name, "count": float64(t.Count)}
+		if len(t.Inner) > 0 {
+			m["inner"] = toJSON(t.Inner)
+		}
+		return m
+	case *TaggedStruct:
+		return toJSON(*t)
+	case PlainStruct:
+		return map[string]interface{}{"Alpha": t.Alpha, "Beta": t.Beta, "Gamma": toJSON(t.Gamma)}
 	}
-	var out interface{}
-	if err := json.Unmarshal(b, &out); err != nil {
-		panic(err)
-	}
-	return out
+	panic(fmt.Sprintf("sim.toJSON: unexpected %T", x))
 }
 
 // IsNil tells whether the API would see a nil interface value.
